@@ -83,6 +83,7 @@ def required(tier):
         "mode_checked": 4000 * k, "support_checked": 4000 * k, "support_with_dosage_variants": 400 * k,
         "support_differs_from_mode_genotype_support": 40 * k,
         "allele_frequencies_checked": 3000 * k, "repeated_unit_in_genotype": 2500 * k, "posterior_frequencies_checked": 2000 * k, "posterior_frequencies_order_variants": 300 * k,
+        "second_pass_on_same_objects": 500 * k,
         "prog_traces_checked": 100 * k, "prog_modes_checked": 60 * k, "prog_allele_vectors_checked": 200 * k, "prog_mci_checked": 80 * k,
         "prog_traces_relabelled_after_masking": 5 * k,
         "as_array_checked": 2000 * k, "incongruence_checked": 4000 * k, "incongruence_decided_0": 2000 * k,
@@ -700,6 +701,15 @@ def run_hap(rng, col, payload):
         check_incongruence(bt, emp, thr, cx, "hap")
         if rng.random() < 0.3:
             check_split(bt, emp, hap_key, cx)
+        if rng.random() < 0.3:
+            # object history: the same trace / posterior objects queried a second time must answer as the first time
+            cx.col.count("second_pass_on_same_objects")
+            g, p = post.mode()
+            check_mode(g, p, emp, hap_key, cx, "mode() [second query]")
+            check_support_hap(post, emp, cx)
+            check_allele_frequencies(post, emp, cx)
+            check_incongruence(bt, emp, thr, cx, "hap")
+            check_posterior(bt.posterior(), emp, hap_key, cx)
     return {"genotypes_shape": list(G.shape), "first_steps": G_in[:, :3].tolist()}
 
 
@@ -743,6 +753,16 @@ def allele_functionals(trace, keys, n_allele, n, rng, col, payload, what, llks=N
     check_incongruence(bt, emp, thr, cx, "allele")
     if rng.random() < 0.3:
         check_split(bt, emp, allele_key, cx)
+    if rng.random() < 0.3:
+        # object history: a second round of queries on the same objects
+        cx.col.count("second_pass_on_same_objects")
+        g, p = post.mode()
+        check_mode(g, p, emp, allele_key, cx, "mode() [second query]")
+        check_support_allele(post, emp, cx)
+        check_posterior_frequencies(bt, emp, n_allele, cx)
+        check_as_array(post, emp, na, cx)
+        check_incongruence(bt, emp, thr, cx, "allele")
+        check_posterior(bt.posterior(), emp, allele_key, cx)
     if relabel and rng.random() < 0.25:
         # order-preserving relabelling (what the programs do when some haplotypes are masked)
         labels = np.sort(rng.permutation(n_allele + 3)[:n_allele]).astype(np.int64)
